@@ -197,6 +197,13 @@ var concKinds = map[string]concKind{
 	"ngap-pdusetup": {[]string{"tglib.GetPDUSessionResourceSetupResponse", "ngap.Decoder", "ngap.Encoder"},
 		func(st *concState) []byte {
 			ip := fmt.Sprintf("10.%d.%d.%d", st.g, st.rng.Intn(256), 1+st.rng.Intn(250))
+			if st.rng.Intn(6) == 0 {
+				// a REFUSED encoding now and then (identifier out of range): error paths must not leave state behind
+				_, err := tglib.GetPDUSessionResourceSetupResponse(st.amf, 1<<32+st.ran, int64(1+st.rng.Intn(15)), ip)
+				if err == nil {
+					return []byte("out-of-range id accepted")
+				}
+			}
 			return ngapRound(tglib.GetPDUSessionResourceSetupResponse(st.amf, st.ran, int64(1+st.rng.Intn(15)), ip))
 		}},
 	"ngap-release": {[]string{"tglib.GetUEContextReleaseRequest", "tglib.GetUEContextReleaseComplete", "tglib.GetPDUSessionResourceReleaseResponse", "ngap.Decoder", "ngap.Encoder"},
